@@ -268,12 +268,26 @@ Fixpoint set_field (ws vs : list Z) (cur off v : Z) : list Z :=
   | _, _ => vs
   end.
 
+(* withoutZip64Extra: copy of an extra block without its records of header id 1; a malformed remainder is kept as is *)
+Fixpoint without_z64 (fuel : nat) (extra out : bytes) : bytes :=
+  match fuel with
+  | O => out ++ extra
+  | S k =>
+      if negb (wz_loop (zlen extra)) then (if wz_keeps_remainder then out ++ extra else out) else
+      let id := le_dec (zslice 0 2 extra) in
+      let size := wz_size (le_dec (zslice 2 4 extra)) in
+      if wz_overrun size (zlen extra) then (if wz_keeps_remainder then out ++ extra else out) else
+      without_z64 k (if wz_advances then zdrop size extra else extra)
+                  (if wz_keep id && wz_copies_record then out ++ ztake size extra else out)
+  end.
+Definition without_zip64_extra (extra : bytes) : bytes := without_z64 (S (length extra)) extra [].
+
 Definition regen_header (f : cdent) : bytes :=
   let base := gdh_hdr (e_creator f) (e_reader f) (e_flags f) (e_method f) (e_mtime f) (e_mdate f) (e_crc f)
                       (e_csize f) (e_usize f) (e_iattrs f) (e_eattrs f) (e_offset f)
                       (zlen (e_name f)) (zlen (e_extra f)) (zlen (e_comment f)) in
   if gdh_promote (e_csize f) (e_usize f) (e_offset f) then
-    let extra := enc_struct z64x_widths (gdh_z64extra (e_csize f) (e_usize f) (e_offset f)) ++ e_extra f in
+    let extra := enc_struct z64x_widths (gdh_z64extra (e_csize f) (e_usize f) (e_offset f)) ++ without_zip64_extra (e_extra f) in
     let h1 := set_field cdh_widths base 0 cdh_off_CompressedSize gdh_p_csize in
     let h2 := set_field cdh_widths h1 0 cdh_off_UncompressedSize gdh_p_usize in
     let h3 := set_field cdh_widths h2 0 cdh_off_Offset gdh_p_offset in
